@@ -688,10 +688,16 @@ def total_edge_pixels_from(mask_2d: np.ndarray) -> int:
 
     edge_pixel_total = 0
 
-    for y in range(1, mask_2d.shape[0] - 1):
-        for x in range(1, mask_2d.shape[1] - 1):
+    # Pad the mask with a ring of masked pixels, so unmasked pixels on the outer row / column of the array (whose
+    # out-of-array neighbors are treated as masked) are handled by the same 8-neighbor test.
+
+    mask_2d_padded = np.full((mask_2d.shape[0] + 2, mask_2d.shape[1] + 2), True)
+    mask_2d_padded[1:-1, 1:-1] = mask_2d
+
+    for y in range(mask_2d.shape[0]):
+        for x in range(mask_2d.shape[1]):
             if not mask_2d[y, x]:
-                if check_if_edge_pixel(mask_2d=mask_2d, y=y, x=x):
+                if check_if_edge_pixel(mask_2d=mask_2d_padded, y=y + 1, x=x + 1):
                     edge_pixel_total += 1
 
     return edge_pixel_total
@@ -740,19 +746,16 @@ def edge_1d_indexes_from(mask_2d: np.ndarray) -> np.ndarray:
     edge_index = 0
     regular_index = 0
 
-    for y in range(1, mask_2d.shape[0] - 1):
-        for x in range(1, mask_2d.shape[1] - 1):
+    # Pad the mask with a ring of masked pixels, so unmasked pixels on the outer row / column of the array are
+    # included and every unmasked pixel advances the slim index.
+
+    mask_2d_padded = np.full((mask_2d.shape[0] + 2, mask_2d.shape[1] + 2), True)
+    mask_2d_padded[1:-1, 1:-1] = mask_2d
+
+    for y in range(mask_2d.shape[0]):
+        for x in range(mask_2d.shape[1]):
             if not mask_2d[y, x]:
-                if (
-                    mask_2d[y + 1, x]
-                    or mask_2d[y - 1, x]
-                    or mask_2d[y, x + 1]
-                    or mask_2d[y, x - 1]
-                    or mask_2d[y + 1, x + 1]
-                    or mask_2d[y + 1, x - 1]
-                    or mask_2d[y - 1, x + 1]
-                    or mask_2d[y - 1, x - 1]
-                ):
+                if check_if_edge_pixel(mask_2d=mask_2d_padded, y=y + 1, x=x + 1):
                     edge_pixels[edge_index] = regular_index
                     edge_index += 1
 
